@@ -262,7 +262,7 @@ class Arctan:
 
     def backprop(self, xbar):
         xbar = xbar - self.x0
-        xbar *= self.a
+        xbar = xbar * self.a  # out of place: an integer-typed input cannot hold the product
         return self.a * (1 / (xbar**2 + 1))
 
 
